@@ -293,7 +293,7 @@ theorem findChained_setAt (k base : Nat) (ls : List Bytes) (i : Nat) (x old : By
 
 theorem targetIndex_setAt (id : Bytes) (k base : Nat) (ls : List Bytes) (i : Nat) (x old : Bytes)
     (hold : ls[i]? = some old)
-    (hid : contains (b!"id:" ++ id) x = contains (b!"id:" ++ id) old)
+    (hid : isIdLine id x = isIdLine id old)
     (hsec : contains secRule x = contains secRule old) :
     targetIndex id k base (setAt ls i x) = targetIndex id k base ls := by
   induction ls generalizing i base with
